@@ -292,7 +292,11 @@ class Run:
 
     def build(self):
         sim = self.sim
-        conf = SimulationConfiguration(max_iterations=sim.get("maxIter"), execution_logging=False)
+        # observation options of the public configuration (profiling report, debug logging, execution logging):
+        # they change what is logged, never what the run does
+        opts = {"execution_logging": False}
+        opts.update(sim.get("options") or {})
+        conf = SimulationConfiguration(max_iterations=sim.get("maxIter"), **opts)
         builder = SimulationBuilder(conf)
         handlers = {"assertion": make_handler(self.handler_kind, self.assertions), "timer": TimerHandler()}
         for label in (["assertion", "timer"] if sim.get("order", "assertion-first") == "assertion-first"
@@ -394,7 +398,8 @@ class C18(Check):
             "later event), so that the deciding event is a cancelled timer's; the first always-violation placed at every position 0..last or nowhere, on "
             "the last node of the asserted type, with nodes of the other type violating from the start; eventually-predicates "
             "met at a chosen position, after the cut, or never, per node; zero-event runs; start_simulation and manual "
-            "stepping; both handler registration orders; in half of the cases the assertions are installed through a "
+            "stepping; both handler registration orders; 45% of the simulations run with observation options of "
+            "SimulationConfiguration switched on (profile=True, debug=True, execution_logging=True, alone or combined); in half of the cases the assertions are installed through a "
             "user-defined class derived from AssertionHandler (own constructor / intermediate base class / reporting around "
             "register_node and finalize / after-step hook wrapped via super()); besides the single simulations, batches of "
             "2-3 simulations that are handed the SAME decorated assertions and protocol classes, with unrelated, shrinking, "
@@ -497,9 +502,28 @@ class C18(Check):
         self.gen_stale(random.Random(stable_hash("C18", "stale", s)), ptypes, init, events, of_T, of_E)
         sim = {"ptypes": ptypes, "init": init, "events": events, "order": r.choice(["assertion-first", "timer-first"]),
                "maxIter": max_iter, "drive": {"mode": r.choice(["start", "steps"])}}
+        options = self.gen_options(s)
+        if options:
+            sim["options"] = options
         if member:
             return sim
         return {"kind": "assertions", "seed": s, "label": label, "specs": specs, "handler": self.gen_handler(s), **sim}
+
+    @staticmethod
+    def gen_options(s):
+        """(own random stream)  observation options of SimulationConfiguration: 45% of the simulations run with
+        some of profile=True / debug=True / execution_logging=True (the harness default is execution_logging=False)"""
+        r = random.Random(stable_hash("C18", "options", s))
+        if r.random() < 0.55:
+            return None
+        options = {}
+        if r.random() < 0.6:
+            options["profile"] = True
+        if r.random() < 0.35:
+            options["debug"] = True
+        if r.random() < 0.4:
+            options["execution_logging"] = True
+        return options or {"profile": True}
 
     @staticmethod
     def gen_handler(s):
@@ -747,10 +771,11 @@ class C18(Check):
                "verdicts": [obs["verdict"] for obs in impl["runs"]], "executed": [obs["executed"] for obs in impl["runs"]]}
         if "sims" in case:
             out.update({"plan": case.get("plan"), "sims": [{"ptypes": sim["ptypes"], "events": sim["events"],
-                                                            "maxIter": sim.get("maxIter")} for sim in sims]})
+                                                            "maxIter": sim.get("maxIter"),
+                                                            "options": sim.get("options")} for sim in sims]})
         else:
             out.update({"ptypes": case["ptypes"], "events": case["events"], "maxIter": case.get("maxIter"),
-                        "drive": case["drive"]})
+                        "drive": case["drive"], "options": case.get("options")})
         return out
 
     def stats(self, case, impl, acc):
@@ -807,6 +832,10 @@ class C18(Check):
         N, first, never = self.expectation(case, specs)
         acc[f"events_{min(N, 7)}"] = acc.get(f"events_{min(N, 7)}", 0) + 1
         acc["drive_" + case["drive"]["mode"]] = acc.get("drive_" + case["drive"]["mode"], 0) + 1
+        for name in sorted(case.get("options") or {}):
+            acc["option_" + name] = acc.get("option_" + name, 0) + 1
+            if name == "profile" and never and first is None:
+                acc["profile_with_unmet_eventually"] = acc.get("profile_with_unmet_eventually", 0) + 1
         v = impl["verdict"]
         k = "verdict_" + (v if isinstance(v, str) else f"failedAfter")
         acc[k] = acc.get(k, 0) + 1
@@ -911,6 +940,13 @@ class C18(Check):
                             break
                 if sims_of(best)[si].get("maxIter") is not None:
                     changed |= attempt(lambda c: sims_of(c)[si].__setitem__("maxIter", None))
+                if sims_of(best)[si].get("options"):
+                    if not attempt(lambda c: sims_of(c)[si].pop("options")):
+                        for name in list(sims_of(best)[si]["options"]):
+                            if len(sims_of(best)[si]["options"]) > 1:
+                                changed |= attempt(lambda c: sims_of(c)[si]["options"].pop(name, None))
+                    else:
+                        changed = True
         return best
 
 
